@@ -543,3 +543,456 @@ impl VioBook {
         self.map.lock().unwrap().keys().cloned().collect()
     }
 }
+
+// ------------------------------------------------- fork supervisor (worker)
+//
+// Inside a worker process the cases of a batch are evaluated by a *forked
+// child*; the worker itself only supervises. A case that aborts, overflows the
+// stack or hangs therefore costs one `fork` instead of a process restart, the
+// supervisor records it (signal, stderr text, stage from the shared progress
+// cell), re-runs it alone to confirm, and forks a new child for the rest.
+
+pub struct Supervisor {
+    cell: *mut u64,
+    pub progress: Progress,
+}
+
+pub enum ForkOutcome {
+    Answer(Json),
+    Fault(Fault),
+}
+
+#[derive(Default)]
+pub struct SupStats {
+    pub forks: u64,
+    pub unconfirmed_deaths: u64,
+    pub unconfirmed_timeouts: u64,
+}
+
+impl Supervisor {
+    pub fn new() -> Supervisor {
+        let p = unsafe {
+            libc::mmap(
+                std::ptr::null_mut(),
+                4096,
+                libc::PROT_READ | libc::PROT_WRITE,
+                libc::MAP_SHARED | libc::MAP_ANONYMOUS,
+                -1,
+                0,
+            )
+        };
+        if p == libc::MAP_FAILED {
+            vp_core::machinery_error("mmap of progress cell failed");
+        }
+        Supervisor { cell: p as *mut u64, progress: Progress { ptr: p as *mut u64 } }
+    }
+
+    fn read_cell(&self) -> (u64, u64) {
+        unsafe { (std::ptr::read_volatile(self.cell), std::ptr::read_volatile(self.cell.add(1))) }
+    }
+
+    fn reset_cell(&self) {
+        unsafe {
+            std::ptr::write_volatile(self.cell, 0);
+            std::ptr::write_volatile(self.cell.add(1), 0);
+        }
+    }
+
+    /// Evaluate `[from, to)` in a forked child. `body` runs in the child only.
+    pub fn fork_run(
+        &self,
+        set: usize,
+        from: u64,
+        to: u64,
+        case_timeout: Duration,
+        body: &mut dyn FnMut(u64, u64, &Progress) -> Json,
+    ) -> ForkOutcome {
+        use std::os::fd::{FromRawFd, RawFd};
+        self.reset_cell();
+        let mut fds: [RawFd; 2] = [0; 2];
+        if unsafe { libc::pipe2(fds.as_mut_ptr(), libc::O_CLOEXEC) } != 0 {
+            vp_core::machinery_error("pipe2 failed");
+        }
+        let errfd = unsafe { libc::memfd_create(c"mc-bytes-stderr".as_ptr(), libc::MFD_CLOEXEC) };
+        let pid = unsafe { libc::fork() };
+        if pid < 0 {
+            vp_core::machinery_error("fork failed");
+        }
+        if pid == 0 {
+            // ---- child
+            unsafe {
+                libc::prctl(libc::PR_SET_PDEATHSIG, libc::SIGKILL);
+                if errfd >= 0 {
+                    libc::dup2(errfd, 2);
+                }
+                libc::close(fds[0]);
+            }
+            let res = std::panic::catch_unwind(std::panic::AssertUnwindSafe(|| body(from, to, &self.progress)));
+            let j = match res {
+                Ok(j) => j,
+                Err(_) => json!({"machinery": "panic escaped the case evaluation in the forked child"}),
+            };
+            let s = vp_core::serde_json::to_string(&j).unwrap_or_else(|_| "{\"machinery\":\"unserialisable\"}".into());
+            let b = s.as_bytes();
+            let mut off = 0;
+            while off < b.len() {
+                let n = unsafe { libc::write(fds[1], b[off..].as_ptr() as *const libc::c_void, b.len() - off) };
+                if n <= 0 {
+                    break;
+                }
+                off += n as usize;
+            }
+            unsafe { libc::_exit(0) };
+        }
+        // ---- supervisor
+        unsafe { libc::close(fds[1]) };
+        let rfd = fds[0];
+        unsafe {
+            let fl = libc::fcntl(rfd, libc::F_GETFL);
+            libc::fcntl(rfd, libc::F_SETFL, fl | libc::O_NONBLOCK);
+        }
+        let mut data: Vec<u8> = Vec::new();
+        let mut last = self.read_cell();
+        let mut last_change = std::time::Instant::now();
+        let mut timed_out = false;
+        let mut buf = [0u8; 65536];
+        'outer: loop {
+            let mut pfd = libc::pollfd { fd: rfd, events: libc::POLLIN, revents: 0 };
+            let pr = unsafe { libc::poll(&mut pfd, 1, 50) };
+            if pr > 0 {
+                loop {
+                    let n = unsafe { libc::read(rfd, buf.as_mut_ptr() as *mut libc::c_void, buf.len()) };
+                    if n > 0 {
+                        data.extend_from_slice(&buf[..n as usize]);
+                        last_change = std::time::Instant::now();
+                    } else if n == 0 {
+                        break 'outer; // EOF: child finished or died
+                    } else {
+                        break; // EAGAIN
+                    }
+                }
+            }
+            let cur = self.read_cell();
+            if cur != last {
+                last = cur;
+                last_change = std::time::Instant::now();
+            } else if last_change.elapsed() > case_timeout {
+                timed_out = true;
+                unsafe { libc::kill(pid, libc::SIGKILL) };
+                break;
+            }
+        }
+        unsafe { libc::close(rfd) };
+        let mut status: libc::c_int = 0;
+        unsafe { libc::waitpid(pid, &mut status, 0) };
+        let stderr = if errfd >= 0 {
+            let mut f = unsafe { std::fs::File::from_raw_fd(errfd) };
+            use std::io::{Read, Seek, SeekFrom};
+            let mut s = Vec::new();
+            let _ = f.seek(SeekFrom::Start(0));
+            let _ = f.read_to_end(&mut s);
+            let s = String::from_utf8_lossy(&s).trim().to_string();
+            vp_core::truncate(&s, 400)
+        } else {
+            String::new()
+        };
+        let (idx1, stage) = self.read_cell();
+        let fault = |kind: FaultKind| -> ForkOutcome {
+            if idx1 == 0 {
+                vp_core::machinery_error(&format!("forked child failed before its first case: {}", kind.describe()));
+            }
+            ForkOutcome::Fault(Fault { set, idx: idx1 - 1, stage, kind, stderr: stderr.clone() })
+        };
+        if timed_out {
+            return fault(FaultKind::Timeout);
+        }
+        if libc::WIFSIGNALED(status) {
+            let sig = libc::WTERMSIG(status);
+            return fault(FaultKind::Died(format!("signal: {sig}")));
+        }
+        let code = libc::WEXITSTATUS(status);
+        if code != 0 {
+            return fault(FaultKind::Died(format!("exit code {code}")));
+        }
+        match vp_core::serde_json::from_slice::<Json>(&data) {
+            Ok(j) => {
+                if j.get("machinery").is_some() {
+                    vp_core::machinery_error(&format!("forked child: {j}"));
+                }
+                ForkOutcome::Answer(j)
+            }
+            Err(e) => vp_core::machinery_error(&format!("forked child wrote unparsable answer: {e}")),
+        }
+    }
+
+    /// Evaluate `[start, end)`, isolating, confirming and stepping over faults.
+    pub fn supervise(
+        &self,
+        set: usize,
+        start: u64,
+        end: u64,
+        case_timeout: Duration,
+        body: &mut dyn FnMut(u64, u64, &Progress) -> Json,
+        merge: &mut dyn FnMut(Json),
+        faults: &mut Vec<Fault>,
+        stats: &mut SupStats,
+    ) {
+        let mut stack = vec![(start, end)];
+        while let Some((a, b)) = stack.pop() {
+            if a >= b {
+                continue;
+            }
+            stats.forks += 1;
+            match self.fork_run(set, a, b, case_timeout, body) {
+                ForkOutcome::Answer(j) => merge(j),
+                ForkOutcome::Fault(f) => {
+                    if f.idx < a || f.idx >= b {
+                        vp_core::machinery_error("fork supervisor: progress index outside range");
+                    }
+                    stats.forks += 1;
+                    match self.fork_run(set, f.idx, f.idx + 1, case_timeout, body) {
+                        ForkOutcome::Answer(j) => {
+                            match f.kind {
+                                FaultKind::Timeout => stats.unconfirmed_timeouts += 1,
+                                FaultKind::Died(_) => stats.unconfirmed_deaths += 1,
+                            }
+                            merge(j);
+                        }
+                        ForkOutcome::Fault(f2) => faults.push(f2),
+                    }
+                    stack.push((f.idx + 1, b));
+                    stack.push((a, f.idx));
+                }
+            }
+        }
+    }
+}
+
+pub fn fault_to_json(f: &Fault) -> Json {
+    let (k, s) = match &f.kind {
+        FaultKind::Timeout => ("timeout", String::new()),
+        FaultKind::Died(s) => ("died", s.clone()),
+    };
+    json!({"set": f.set, "idx": f.idx, "stage": f.stage, "kind": k, "status": s, "stderr": f.stderr})
+}
+
+pub fn fault_from_json(j: &Json) -> Fault {
+    Fault {
+        set: j["set"].as_u64().unwrap_or(0) as usize,
+        idx: j["idx"].as_u64().unwrap_or(0),
+        stage: j["stage"].as_u64().unwrap_or(0),
+        kind: if j["kind"] == "timeout" { FaultKind::Timeout } else { FaultKind::Died(j["status"].as_str().unwrap_or("").to_string()) },
+        stderr: j["stderr"].as_str().unwrap_or("").to_string(),
+    }
+}
+
+// ----------------------------------------------------------- accumulators
+
+/// What a child reports for a range of cases; mergeable.
+#[derive(Default)]
+pub struct Acc {
+    pub n: u64,
+    /// outcome histogram
+    pub hist: std::collections::BTreeMap<String, u64>,
+    /// signature -> (count, first index, detail of the first)
+    pub vio: std::collections::BTreeMap<String, (u64, u64, String)>,
+    pub obs: std::collections::BTreeMap<String, u64>,
+    /// named counters (summed on merge)
+    pub cnt: std::collections::BTreeMap<String, u64>,
+    /// named maxima
+    pub maxs: std::collections::BTreeMap<String, u64>,
+    /// hashes of the non-trivial inputs (for de-duplication in the parent)
+    pub hashes: Vec<u64>,
+    /// free-form per-case notes (concatenated on merge)
+    pub notes: Vec<Json>,
+}
+
+impl Acc {
+    pub fn vio(&mut self, sig: String, idx: u64, detail: String) {
+        let e = self.vio.entry(sig).or_insert((0, idx, detail));
+        e.0 += 1;
+    }
+    pub fn hist(&mut self, key: String) {
+        *self.hist.entry(key).or_insert(0) += 1;
+    }
+    pub fn obs(&mut self, key: &str) {
+        *self.obs.entry(key.to_string()).or_insert(0) += 1;
+    }
+    pub fn count(&mut self, key: &str, n: u64) {
+        *self.cnt.entry(key.to_string()).or_insert(0) += n;
+    }
+    pub fn max(&mut self, key: &str, v: u64) {
+        let e = self.maxs.entry(key.to_string()).or_insert(0);
+        *e = (*e).max(v);
+    }
+    pub fn to_json(&self) -> Json {
+        json!({
+            "n": self.n,
+            "hist": self.hist,
+            "vio": self.vio.iter().map(|(k, v)| json!({"sig": k, "count": v.0, "idx": v.1, "detail": v.2})).collect::<Vec<_>>(),
+            "obs": self.obs,
+            "cnt": self.cnt,
+            "maxs": self.maxs,
+            "hashes": self.hashes,
+            "notes": self.notes,
+        })
+    }
+    pub fn merge_json(&mut self, j: &Json) {
+        self.n += j["n"].as_u64().unwrap_or(0);
+        let add = |dst: &mut std::collections::BTreeMap<String, u64>, src: &Json| {
+            if let Some(m) = src.as_object() {
+                for (k, v) in m {
+                    *dst.entry(k.clone()).or_insert(0) += v.as_u64().unwrap_or(0);
+                }
+            }
+        };
+        add(&mut self.hist, &j["hist"]);
+        add(&mut self.obs, &j["obs"]);
+        add(&mut self.cnt, &j["cnt"]);
+        if let Some(m) = j["maxs"].as_object() {
+            for (k, v) in m {
+                let e = self.maxs.entry(k.clone()).or_insert(0);
+                *e = (*e).max(v.as_u64().unwrap_or(0));
+            }
+        }
+        if let Some(vs) = j["vio"].as_array() {
+            for v in vs {
+                let sig = v["sig"].as_str().unwrap_or("?").to_string();
+                let (c, i, d) = (v["count"].as_u64().unwrap_or(1), v["idx"].as_u64().unwrap_or(0), v["detail"].as_str().unwrap_or(""));
+                match self.vio.get_mut(&sig) {
+                    Some(e) => {
+                        e.0 += c;
+                        if i < e.1 {
+                            e.1 = i;
+                            e.2 = d.to_string();
+                        }
+                    }
+                    None => {
+                        self.vio.insert(sig, (c, i, d.to_string()));
+                    }
+                }
+            }
+        }
+        if let Some(hs) = j["hashes"].as_array() {
+            self.hashes.extend(hs.iter().filter_map(|h| h.as_u64()));
+        }
+        if let Some(ns) = j["notes"].as_array() {
+            self.notes.extend(ns.iter().cloned());
+        }
+    }
+}
+
+/// Parent-side totals over all batches of all sets.
+pub struct Totals {
+    pub book: VioBook,
+    pub hist: Mutex<std::collections::BTreeMap<String, u64>>,
+    pub obs: Mutex<std::collections::BTreeMap<String, u64>>,
+    pub cnt: vp_core::Counters,
+    pub maxs: Mutex<std::collections::BTreeMap<String, u64>>,
+    pub hashes: Mutex<std::collections::HashSet<u64>>,
+    pub notes: Mutex<Vec<(usize, Json)>>,
+    pub faults: Mutex<Vec<Fault>>,
+}
+
+impl Totals {
+    pub fn new() -> Totals {
+        Totals {
+            book: VioBook::new(),
+            hist: Mutex::new(Default::default()),
+            obs: Mutex::new(Default::default()),
+            cnt: vp_core::Counters::new(),
+            maxs: Mutex::new(Default::default()),
+            hashes: Mutex::new(Default::default()),
+            notes: Mutex::new(Vec::new()),
+            faults: Mutex::new(Vec::new()),
+        }
+    }
+
+    /// Fold one worker answer (an `Acc` plus the supervisor's fault list).
+    pub fn absorb(&self, set: usize, a: &Json) {
+        let n = a["n"].as_u64().unwrap_or(0);
+        self.cnt.add("evaluations", n);
+        self.cnt.add(&format!("set{set}_evaluations"), n);
+        let add = |dst: &Mutex<std::collections::BTreeMap<String, u64>>, src: &Json| {
+            if let Some(m) = src.as_object() {
+                let mut g = dst.lock().unwrap();
+                for (k, v) in m {
+                    *g.entry(k.clone()).or_insert(0) += v.as_u64().unwrap_or(0);
+                }
+            }
+        };
+        add(&self.hist, &a["hist"]);
+        add(&self.obs, &a["obs"]);
+        if let Some(m) = a["cnt"].as_object() {
+            for (k, v) in m {
+                self.cnt.add(k, v.as_u64().unwrap_or(0));
+                self.cnt.add(&format!("set{set}_{k}"), v.as_u64().unwrap_or(0));
+            }
+        }
+        if let Some(m) = a["maxs"].as_object() {
+            let mut g = self.maxs.lock().unwrap();
+            for (k, v) in m {
+                let e = g.entry(k.clone()).or_insert(0);
+                *e = (*e).max(v.as_u64().unwrap_or(0));
+            }
+        }
+        if let Some(hs) = a["hashes"].as_array() {
+            let mut g = self.hashes.lock().unwrap();
+            for h in hs {
+                if let Some(h) = h.as_u64() {
+                    g.insert(h);
+                }
+            }
+        }
+        if let Some(ns) = a["notes"].as_array() {
+            let mut g = self.notes.lock().unwrap();
+            for x in ns {
+                g.push((set, x.clone()));
+            }
+        }
+        if let Some(vs) = a["vio"].as_array() {
+            for v in vs {
+                self.book.add(
+                    v["sig"].as_str().unwrap_or("?"),
+                    v["count"].as_u64().unwrap_or(1),
+                    set,
+                    v["idx"].as_u64().unwrap_or(0),
+                    v["detail"].as_str().unwrap_or(""),
+                );
+            }
+        }
+        if let Some(fs) = a["faults"].as_array() {
+            let mut g = self.faults.lock().unwrap();
+            for f in fs {
+                let mut f = fault_from_json(f);
+                f.set = set;
+                g.push(f);
+            }
+        }
+        self.cnt.add("forks", a["forks"].as_u64().unwrap_or(0));
+        self.cnt.add("unconfirmed_deaths", a["unconfirmed_deaths"].as_u64().unwrap_or(0));
+        self.cnt.add("unconfirmed_timeouts", a["unconfirmed_timeouts"].as_u64().unwrap_or(0));
+    }
+}
+
+/// Worker side: supervise a range and produce the answer for the parent.
+pub fn supervised_answer(
+    sup: &Supervisor,
+    set: usize,
+    start: u64,
+    end: u64,
+    case_timeout: Duration,
+    body: &mut dyn FnMut(u64, u64, &Progress) -> Json,
+) -> Json {
+    let mut total = Acc::default();
+    let mut faults = Vec::new();
+    let mut st = SupStats::default();
+    sup.supervise(set, start, end, case_timeout, body, &mut |j| total.merge_json(&j), &mut faults, &mut st);
+    let mut j = total.to_json();
+    let o = j.as_object_mut().unwrap();
+    o.insert("faults".into(), Json::Array(faults.iter().map(fault_to_json).collect()));
+    o.insert("forks".into(), json!(st.forks));
+    o.insert("unconfirmed_deaths".into(), json!(st.unconfirmed_deaths));
+    o.insert("unconfirmed_timeouts".into(), json!(st.unconfirmed_timeouts));
+    j
+}
